@@ -153,9 +153,7 @@ def conditions(tier, seed, active):
             if quick:
                 positions = [rng.choice(positions)]
             for pos in positions:
-                kinds = cand.kinds_for(k)
-                if quick:
-                    kinds = rng.sample(kinds, 1)
+                kinds = rng.sample(cand.kinds_for(k), 1 if quick else 2)
                 for kind in kinds:
                     c("kw@%s/%s/%s/d%d" % (pos, k, kind, d), "keyword", dict(d=d, k=k, kind=kind, position=pos), [], timeout=900)
     return out
